@@ -18,6 +18,7 @@ import (
 	"sync"
 	"syscall"
 	"time"
+	"verifharness/internal/eng"
 
 	"verifharness/internal/ev"
 )
@@ -130,8 +131,16 @@ func childMain() int {
 				rf.Sync()
 			}
 		}
+		eng.CappedWaits.Store(0)
 		r := p.Run(c, i)
 		r.Index = i
+		if n := eng.CappedWaits.Load(); n > 0 {
+			// a watchdog gave up on an engine that was still making progress: slow, not hung - nothing this case
+			// observed after that is a verdict
+			r.Verdict = "inconclusive"
+			r.Note = fmt.Sprintf("%d wait(s) given up while the engine was still making progress (machine too slow for the watchdog); %d findings of this case discarded", n, len(r.Viols))
+			r.Viols = nil
+		}
 		if r.Verdict == "" {
 			if len(r.Viols) > 0 {
 				r.Verdict = "violated"
